@@ -612,7 +612,10 @@ func (a *analysis) track(s *Site) {
 					st = 0
 					break
 				}
-				// the same site executes again (loop): restart
+				// the same site executes again (loop): the previous iteration's error, if it was never examined, is lost
+				if st&stP != 0 {
+					report("overwritten", n.Pos(), "the call runs again in a loop and overwrites its own error of the previous iteration, which was never examined: only the last iteration's error survives")
+				}
 				st = stP
 				continue
 			}
